@@ -160,7 +160,9 @@ def rec_worker(args):
             except Exception as e:  # noqa
                 viol("rec.constructs", cfgname, None, exc_str(e))
                 continue
-            rp._verif_steps["budget"] = 600 + 100 * max(params["max_len"], 16)
+            # (divergence detector, not a performance bound: GLR on the most ambiguous grammars of the
+            # thorough scope needs ~3000 counted steps for 5 tokens; a budget of 2200 raised false alarms)
+            rp._verif_steps["budget"] = 50000
             nonterm = 0
             for w in ws_in:
                 if only and w != only["input"]:
